@@ -68,4 +68,11 @@ class Scheduler final {
   bool _running{false};
 };
 
+#ifdef YACLIB_VERIF
+// Verification-only trace hook: called by RunLoop right before a fiber is resumed.
+using VerifResumeHook = void (*)(std::uint64_t fiber_id, std::uint64_t time_ns);
+
+void SetVerifResumeHook(VerifResumeHook hook) noexcept;
+#endif
+
 }  // namespace yaclib::fault
